@@ -237,6 +237,7 @@ fn run(eng: &Engine, a: &Args) {
         ldb_reopens: 0,
         ldb_compact: false,
         ldb_history: false,
+        xor_link: 0,
     };
     let many = vec![
         Case { chain: chain.clone(), start: None, end: None, cb: Callback::CsvDump, layout: Some(layout.clone()), verify: false, pause: false, nofile: Some(256) },
